@@ -45,8 +45,8 @@ def getter_field(prog, F):
         fields = set()
         okay = bool(os_)
         for o in os_:
-            if o.kind == "arg" and o.what == 1 and o.fields:
-                fields.add(o.fields[-1])
+            if o.kind == "arg" and o.what == 1 and _last_local(o.fields):
+                fields.add(_last_local(o.fields))
             else:
                 okay = False
         if okay and len(fields) == 1 and not any(True for _ in F.calls()):
@@ -73,18 +73,27 @@ def resolve_fields(prog, fn, place, du=None, depth=0):
     reference does not derive from a field (local temporaries, unknown calls)."""
     du = du or DefUse(fn)
     out = set()
-    if isinstance(place, Place) and place.proj and place.fields():
-        out.add(place.fields()[-1])
+    if isinstance(place, Place) and place.proj and _last_local(place.fields()):
+        out.add(_last_local(place.fields()))
         return out
     for o in origins(fn, place, du):
-        if o.fields:
-            out.add(o.fields[-1])
+        lf = _last_local(o.fields)
+        if lf:
+            out.add(lf)
         elif o.kind == "call" and o.site is not None and depth < 3:
             for T in prog.call_targets(o.site):
                 g = getter_field(prog, T)
                 if g:
                     out.add(g)
     return out
+
+
+def _last_local(fields):
+    """Last field projection that belongs to an ADT of the analysed crates (skips Option/tuple...)."""
+    for f in reversed(list(fields)):
+        if f.startswith("incremental"):
+            return f
+    return None
 
 
 class Access:
@@ -127,13 +136,13 @@ def accesses(prog):
             for f in resolve_fields(prog, F, p, du):
                 out.append(Access(F, t.bb, f, m[0], m[1], t))
         for s in F.stmts():
-            if s.dst is not None and s.dst.fields():
-                out.append(Access(F, s.bb, s.dst.fields()[-1], "assign", True, s, s.rv))
+            if s.dst is not None and _last_local(s.dst.fields()):
+                out.append(Access(F, s.bb, _last_local(s.dst.fields()), "assign", True, s, s.rv))
             rv = s.rv
             if rv and "ref" in rv and rv.get("mut"):
                 p = Place(rv["ref"])
-                if p.fields():
-                    out.append(Access(F, s.bb, p.fields()[-1], "ref_mut", True, s))
+                if _last_local(p.fields()):
+                    out.append(Access(F, s.bb, _last_local(p.fields()), "ref_mut", True, s))
     prog.__dict__["_accesses"] = out
     return out
 
